@@ -49,6 +49,23 @@ def _mk_cases(case):
     k = case["stream"]
     if k == "wide":
         return wide_cases(rng, case["n"])
+    if k == "enames":
+        # variables named like exponent letters next to a sign and digits: `c*e-3`, `a+d+1`
+        out = []
+        for nm in ("e", "d", "E", "D", "e1"):
+            for ctor in CE.BINARY:
+                op = CE.SPELL[ctor][0]
+                for sign in ("+", "-"):
+                    for num in ("3", "10", "1.5"):
+                        for ab in ((("add", sign, (ctor, op, ("atom", "c"), ("atom", nm)), ("atom", num))),
+                                   ((ctor, op, ("atom", "c"), ("add", sign, ("atom", nm), ("atom", num))))):
+                            tree = CE.parenthesize(ab)
+                            toks = CE.tokens_of(tree)
+                            out.append(CE.make_case(tree, toks, [False] * len(toks), "enames"))
+                            glue = CE.rand_glue(rng, toks, 1.0)
+                            if any(glue):
+                                out.append(CE.make_case(tree, toks, glue, "enames"))
+        return out
     if k == "enum3":
         return CE.enum3_cases(rng, case["n"])
     if k == "enum":
@@ -132,6 +149,7 @@ def cases(tier, seed):
     step = 400
     for lo in range(0, total, step):
         out.append({"stream": "enum", "depth": 2, "lo": lo, "hi": lo + step, "seed": 0})
+    out.append({"stream": "enames", "seed": 7})
     # depth 3 has 2.2e7 trees: sampled (every top constructor over the complete depth-2 set)
     for i, s in enumerate(util.seeds(seed, util.tier_n(tier, 2, 60), 36)):
         out.append({"stream": "enum3", "seed": s, "n": 600, "_timeout": 900})
